@@ -279,83 +279,12 @@ def mailbox_kill(chk):
     chk.extra["mailbox_kill_lockstep_steps"] = steps
 
 
-# ----------------------------------------------------------------------------- capacity against chunk lag (LagNet.tla)
-def lag_model(arg):
-    cap, lag, n = arg
-    cfg = (f"SPECIFICATION Spec\nCONSTANTS Cap = {cap} Lag = {lag} N = {n}\nINVARIANT CapInv\nINVARIANT Delivered\nINVARIANT ProvisoSufficient\n"
-           "PROPERTY {}\nCHECK_DEADLOCK FALSE\n")
-    d = V.stage_spec(["LagNet"], {"LagNet.cfg": cfg.format("Terminates")})
-    r = V.run_tlc(d, "LagNet", workers=1, timeout=900, heap="2g")
-    verdict, r2 = ("T", None) if r.ok else ("?", None)
-    if r.violated == "Terminates":
-        # not every schedule terminates: every schedule ends stuck (D), or the outcome depends on the schedule (M)
-        d2 = V.stage_spec(["LagNet"], {"LagNet.cfg": cfg.format("AlwaysStuck")})
-        r2 = V.run_tlc(d2, "LagNet", workers=1, timeout=900, heap="2g")
-        verdict = "D" if r2.ok else "M" if r2.violated == "AlwaysStuck" else "?"
-    return dict(cap=cap, lag=lag, n=n, verdict=verdict, violated=r.violated,
-                tlc=[dict(what=f"LagNet.tla Cap={cap} Lag={lag} N={n} ({p})", generated=x.generated, distinct=x.distinct, depth=x.depth, ok=x.ok,
-                          violated=x.violated, wall_s=round(x.wall, 1)) for x, p in ((r, "Terminates"), (r2, "AlwaysStuck")) if x is not None])
-
-
-def lag_real(arg):
-    cap, lag, n, seeds = arg
-    out = []
-    for seed in seeds:
-        rec = []
-        sc = dict(topo="diamond_lag", lag=lag, processor="threaded_mailbox", lazy=False, max_messages=cap, n=n, fail=None, consumer=None,
-                  sched="pct" if seed % 3 == 2 else "random")
-        obs = PL.run_scenario(sc, schedule_seed=seed, record=rec)
-        ok = obs["outcome"] == "returned" and obs["rows"] == PL.whole_run("diamond_lag", n)
-        out.append(dict(sc=sc, seed=seed, verdict="T" if ok else "D" if obs["hang"] else "X", detail=f"{obs['outcome']} {obs['exc_type']}: {obs['exc_msg']} hang={obs['hang']}"[:300],
-                        schedule=rec[:600]))
-    return out
-
-
-def lagnet(chk):
-    """C06's last clause: TLC decides LagNet.tla for every (capacity, lag) of the grid; the real diamond with a branch that holds back
-    `lag` chunks runs on the threaded processor (eager) under the deterministic scheduler.  Where the model says every schedule
-    terminates the real pipeline must terminate, with the complete result, on every schedule tried - a violation when lag < capacity
-    (the property's proviso), drift beyond it; where the model says every schedule deadlocks a real run that returns is drift; where
-    the model says the outcome depends on the schedule (M) both are accepted."""
-    quick = chk.tier == "quick"
-    grid = [(cap, lag, lag + 2 * cap + 5) for cap in ((1, 2) if quick else (1, 2, 3)) for lag in range(0, 2 * cap + 5)]
-    models = V.pmap(lag_model, grid, procs=8, warm=False)
-    seeds = [chk.seed * 100 + i for i in range(4 if quick else 16)]
-    reals = V.pmap(lag_real, [g + (seeds,) for g in grid])
-    table, drift = [], []
-    for m, rs in zip(models, reals):
-        for t in m["tlc"]:
-            chk.tlc_runs.append(t)
-            chk.states += t["distinct"]
-            chk.transitions += t["generated"]
-        if m["verdict"] == "?" or m["violated"] not in (None, "Terminates"):
-            raise V.MachineryError(f"LagNet.tla Cap={m['cap']} Lag={m['lag']}: TLC did not decide, or an invariant fails ({m['violated']}): {m['tlc']}")
-        real = "".join(sorted({r["verdict"] for r in rs}))
-        table.append(dict(cap=m["cap"], lag=m["lag"], n=m["n"], model=m["verdict"], real=real))
-        for r in rs:
-            chk.traces += 1
-            chk.case(key=f"lagnet:{m['cap']}:{m['lag']}:{r['seed']}", nontrivial=m["lag"] > 0)
-            if r["verdict"] == "T" and m["verdict"] == "D":
-                drift.append(dict(cap=m["cap"], lag=m["lag"], seed=r["seed"], model="D", real=r["detail"]))
-            if r["verdict"] == "X" or (r["verdict"] != "T" and m["verdict"] == "T"):
-                if m["lag"] < m["cap"] or r["verdict"] == "X":
-                    chk.violation(f"C06:lag:cap{m['cap']}:lag{m['lag']}:{'hang' if r['verdict'] == 'D' else 'wrong-outcome'}",
-                                  f"diamond with a branch holding back {m['lag']} chunks, max_messages={m['cap']} (capacity exceeds the lag), eager, "
-                                  f"{m['n']} chunks, schedule seed {r['seed']}: {r['detail']}", dict(sc=r["sc"], seed=r["seed"], sched=r["sc"]["sched"], schedule=r["schedule"]))
-                else:
-                    drift.append(dict(cap=m["cap"], lag=m["lag"], seed=r["seed"], real=r["detail"]))
-    if not any(t["model"] == "D" and "D" in t["real"] for t in table):
-        raise V.MachineryError("LagNet: no configuration deadlocks in both the model and the real pipeline - the grid has no teeth: " + str(table))
-    chk.extra["lagnet"] = dict(table=table, drift=drift[:5],
-                               note="model T / D / M = every schedule terminates / every schedule deadlocks / depends on the schedule (TLC); "
-                                    "real = outcomes over the seeded schedules")
-
-
 def run(chk):
     V.quiet_threads()
     mailbox_kill(chk)
     model_check(chk)
-    lagnet(chk)
+    import lagnet
+    lagnet.lagnet(chk)
     S = scenarios(chk.tier)
     nsched = 6 if chk.tier == "quick" else 40
     work = [(sc, [chk.seed * 1000 + i for i in range(nsched)]) for sc in S]
